@@ -138,7 +138,16 @@ def run_moving(case):
         integ = strapdown.Integrator(traj.iloc[0])
         integ.integrate(inc)
         sol = integ.trajectory.values
-        outs.append(dict(dt=dt, t=t, g=g, a=a, w=w, f=f, traj=traj.values, sol=sol))
+        o = dict(dt=dt, t=t, g=g, a=a, w=w, f=f, traj=traj.values, sol=sol)
+        if typ == 'increment' and form == 'lla_vel' and not case.get('long'):
+            # interior accuracy per unit time of the increment readings vs that of the rate readings of the
+            # same call arguments (the splines are the same): see the order oracle below
+            _, imu_r = call_generate(form, t, lla_deg, rph_deg, vel, 'rate')
+            wr, fr = m.imu(t)
+            k = slice(int(0.2 * n), int(0.8 * n))
+            o['interior'] = (np.abs(g[k] - w[k]).max() / dt, np.abs(a[k] - f[k]).max() / dt,
+                             np.abs(imu_r.values[k, :3] - wr[k]).max(), np.abs(imu_r.values[k, 3:] - fr[k]).max())
+        outs.append(o)
     # ---- errors and halving changes per quantity
     quantities = {}
 
@@ -218,6 +227,24 @@ def run_moving(case):
         H['inv_att'].append(np.abs(att_err(c['sol'][:, 6:9], c['traj'][:, 6:9])
                                    - att_err(fn['sol'][::2, 6:9], ft[:, 6:9])).max())
     stats = {}
+    if 'interior' in outs[0]:
+        # An increment reading is the integral of the interpolant over one interval: per unit time it cannot be
+        # of lower order than the interpolant's own rate/force readings ("within interpolation error").  Orders
+        # are measured on the interior 60 % of the samples (end conditions of the splines excluded).
+        for ch, nm, floor_i, floor_r in ((0, 'gyro', lambda d: 64 * EPS / d + 1e-13, lambda d: 64 * EPS / d + 1e-13),
+                                         (1, 'accel', lambda d: 40 * EPS * R_EARTH / d ** 2, lambda d: 40 * EPS * R_EARTH / d ** 2)):
+            ei = [(o['dt'], o['interior'][ch]) for o in outs if o['interior'][ch] > 30 * floor_i(o['dt'])]
+            er = [(o['dt'], o['interior'][ch + 2]) for o in outs if o['interior'][ch + 2] > 30 * floor_r(o['dt'])]
+            if len(ei) >= 2 and len(er) >= 2:
+                si = np.log(ei[0][1] / ei[-1][1]) / np.log(ei[0][0] / ei[-1][0])
+                sr = np.log(er[0][1] / er[-1][1]) / np.log(er[0][0] / er[-1][0])
+                stats['min_order_margin_' + nm] = float(si - sr)
+                if si < sr - 0.7:
+                    viol.append(dict(sig='c03-increment-order:' + nm,
+                                     msg='%s increments converge with order %.2f per unit time, the rate readings of '
+                                         'the same motion with order %.2f: the integrals are less accurate than the '
+                                         'interpolation they integrate (errors/dt %s vs %s)'
+                                         % (nm, si, sr, ['%.2e' % x[1] for x in ei], ['%.2e' % x[1] for x in er])))
     for q in E:
         if case.get('long') and q.startswith('inv_'):
             continue        # an hour of free-inertial drift is C01's subject, not the synthesiser's
